@@ -80,8 +80,11 @@ func (k Keeper) ChangeExecutor(ctx context.Context, plan types.ExecutorChangePla
 		return err
 	}
 	params.BridgeExecutors = plan.NextExecutors
-	if err := k.SetParams(ctx, params); err != nil {
+
+	// the validators of the replaced set are removed at the end of this block, so the
+	// transient validator count must not be checked against MaxValidators here
+	if err := params.Validate(k.authKeeper.AddressCodec()); err != nil {
 		return err
 	}
-	return nil
+	return k.Params.Set(ctx, params)
 }
